@@ -310,7 +310,49 @@ func init() {
 			{Name: "exhaustive", N: func(c *Ctx) int { return c16Count(c16Len(c)) }, Run: c16Exhaustive, Exhaustive: true},
 			{Name: "random", N: func(c *Ctx) int { return tierN(c, 10000, 1000000) }, Run: c16Random},
 			{Name: "ladder", N: func(c *Ctx) int { return tierN(c, 300, 20000) }, Run: c16Ladder},
+			{Name: "long-offsets", N: c16LongOffsetsN, Run: c16LongOffsets, Exhaustive: true},
 			{Name: "values", N: func(c *Ctx) int { return tierN(c, 20000, 1500000) }, Run: c16Values},
 		},
 	})
+}
+
+// c16LongOffsets: one escape after a long plain prefix, so that its byte offset inside the token is
+// at, just before and just after 2^8, 2^12, 2^15, 2^16, 2^17 and 2^20 (offsets kept in narrow integer
+// fields wrap to "no escape" exactly there); prefixes of 1-, 2- and 3-byte characters; every literal
+// syntax and every kind of escape; a second escape later on.
+var c16Offsets = []int{254, 255, 256, 257, 4094, 4095, 4096, 4097, 32766, 32767, 32768, 32769, 65533, 65534, 65535, 65536, 65537, 65538, 131070, 131071, 131072, 131073, 196607, 196608, 1048575, 1048576, 1048577}
+
+func c16LongOffsetsN(c *Ctx) int { return len(c16Offsets) * 3 }
+
+func c16LongOffsets(c *Ctx, idx int) {
+	off := c16Offsets[idx%len(c16Offsets)]
+	unit := []string{"a", "é", "日"}[idx/len(c16Offsets)]
+	// the prefix fills the token up to byte offset off (counted from the opening delimiter, which is
+	// at offset 0); short by a few single-byte characters when the unit does not divide it
+	build := func(n int) string {
+		if n <= 0 {
+			return ""
+		}
+		p := strings.Repeat(unit, n/len(unit))
+		return p + strings.Repeat("x", n-len(p))
+	}
+	for _, lead := range []int{1, 2} { // raw strings and quoted identifiers: 1 delimiter byte; JSON literals: backtick + quote
+		prefix := build(off - lead)
+		for _, tail := range []string{"z", "", "tail\\\\more"} {
+			tailDec := strings.ReplaceAll(tail, "\\\\", "\\")
+			if lead == 1 {
+				c.c16Expect("'"+prefix+"\\'"+tail+"'", nil, prefix+"'"+strings.ReplaceAll(tail, "\\\\", "\\"), "C16/raw-string", map[string]string{"syntax": "raw", "stream": "long-offsets", "offset": fmt.Sprint(off)})
+				c.c16Expect("'"+prefix+"\\\\"+tail+"'", nil, prefix+"\\"+tailDec, "C16/raw-string", map[string]string{"syntax": "raw", "stream": "long-offsets", "offset": fmt.Sprint(off)})
+				key := prefix + "\n" + tailDec
+				c.c16Expect("\""+prefix+"\\n"+tail+"\"", map[string]any{key: "hit", prefix: "near-miss"}, "hit", "C16/quoted-identifier", map[string]string{"syntax": "quoted-identifier", "stream": "long-offsets", "offset": fmt.Sprint(off)})
+				key2 := prefix + "é" + tailDec
+				c.c16Expect("\""+prefix+"\\u00e9"+tail+"\"", map[string]any{key2: "hit"}, "hit", "C16/quoted-identifier", map[string]string{"syntax": "quoted-identifier", "stream": "long-offsets", "offset": fmt.Sprint(off)})
+			} else {
+				c.c16Expect("`\""+prefix+"\\`"+tail+"\"`", nil, prefix+"`"+tailDec, "C16/json-literal", map[string]string{"syntax": "json-literal", "stream": "long-offsets", "offset": fmt.Sprint(off)})
+				c.c16Expect("`\""+prefix+"\\n"+tail+"\"`", nil, prefix+"\n"+tailDec, "C16/json-literal", map[string]string{"syntax": "json-literal", "stream": "long-offsets", "offset": fmt.Sprint(off)})
+				c.c16Expect("`[\""+prefix+"\\\"q"+tail+"\"]`[0]", nil, prefix+"\"q"+tailDec, "C16/json-literal", map[string]string{"syntax": "json-literal-nested", "stream": "long-offsets", "offset": fmt.Sprint(off)})
+			}
+		}
+	}
+	c.Nontrivial("long-offsets", fmt.Sprint(idx))
 }
